@@ -149,10 +149,10 @@ def run(rep, tier):
     rep.exhaustive = True
     vs = read_events(vec)
     nv = len(vs)
-    n_ok = sum(1 for v in vs if v["sok"] and v["newname"])
+    n_ok = sum(1 for v in vs if v["sok"] and v["newname"] and v["wf"])      # = number of Add transitions
     n_bad_cons = sum(1 for v in vs if not v["sok"] and v["exam"] and v["cons"])
     n_bad_noncons = sum(1 for v in vs if not v["sok"] and v["exam"] and not v["cons"])
-    rep.notes["vectors"] = {"candidates": nv, "syntactic_ok_and_new": n_ok, "not_ok_but_conservative": n_bad_cons,
+    rep.notes["vectors"] = {"candidates": nv, "acceptable(Add taken)": n_ok, "refused": nv - n_ok, "not_ok_but_conservative": n_bad_cons,
                             "not_ok_and_not_conservative": n_bad_noncons, "names": sorted({v["name"] for v in vs})}
     require(nv >= 3000 and n_ok >= 100 and n_bad_cons >= 100 and n_bad_noncons >= 100 and r.distinct >= 2 * nv,
             "C11_Items: universe too small / one action never taken (vacuity guard): %s states=%d" % (rep.notes["vectors"], r.distinct))
@@ -175,8 +175,8 @@ def run(rep, tier):
                     [("C11_Def.tla", "c[2] = d.name => ~Overlaps(c[3], d.T)", "c[2] = d.name => c[3] # d.T")],
                     ["AllExaminable"], wd=wd, workers=1, env=menv)
         spec_mutant(rep, "extension_forgets_constant", "C11_Items", "C11_Items_tiny.cfg",
-                    [("C11_Items.tla", "consts |-> IF x.name \\in DOMAIN t.consts THEN t.consts ELSE (x.name :> Decl(x.T, FALSE)) @@ t.consts,",
-                      "consts |-> t.consts,")], ["AddedWellTyped"], wd=wd, workers=1, env=menv)
+                    [("C11_Items.tla", "consts |-> ExtConsts(t, x), thms", "consts |-> t.consts, thms")], ["AddedWellTyped"],
+                    wd=wd, workers=1, env=menv)
     for f in dfuts + futs:
         f.result()
     pool.shutdown()
